@@ -379,6 +379,9 @@ def status_cases() -> Iterable[Tuple[str, str, str]]:
         for kind in WARN_DOCS[fmt]:
             yield (fmt, kind, '')
         yield (fmt, 'clean', '')
+        if 'markup' in PROB[fmt]:
+            for shape in ('class', 'class-in-if', 'function', 'method'):
+                yield (fmt, 'superseded:' + shape, '')
         for kind in PROB[fmt]:
             if kind in ('xref', 'markup', 'field', 'param'):
                 yield (fmt, kind, '')
@@ -398,6 +401,20 @@ def run_status(fmt: str, kind: str, res: Dict[str, Any]) -> None:
         src = 'def f(a):\n    """\n' + ''.join('    ' + l + '\n' for l in WARN_DOCS[fmt][kind].split('\n')) + '    """\n'
         fatal = True        # reported as a bad docstring: counted like one
         any_problem = True
+    elif kind.startswith('superseded:'):
+        # the faulty docstring belongs to a definition that a later one of the same name supersedes: reported all the same, hence counted
+        bad = PROB[fmt]['markup'].replace('X', '7')
+        shape = kind.split(':')[1]
+        if shape == 'class':
+            src = f'class K:\n    """First {bad} end."""\n    def m(self): pass\nclass K:\n    """Second, fine."""\n'
+        elif shape == 'class-in-if':
+            src = f'if True:\n    class K:\n        """First {bad} end."""\nelse:\n    pass\nif True:\n    class K:\n        """Second, fine."""\n'
+        elif shape == 'function':
+            src = f'def f(a):\n    """First {bad} end."""\ndef f(a):\n    """Second, fine."""\n'
+        else:
+            src = f'class C:\n    def m(self):\n        """First {bad} end."""\n    def m(self):\n        """Second, fine."""\n'
+        fatal = True
+        any_problem = False      # whether it is reported at all is not this case's question: IF it is reported it must be counted
     elif kind == 'markup+xref':
         b = body_for(fmt, 'markup', 'p2')
         assert b
@@ -421,7 +438,9 @@ def run_status(fmt: str, kind: str, res: Dict[str, Any]) -> None:
             if any_problem and not lines:
                 res['violations'].append(core.violation(f'problem-not-reported/{fmt}/{kind}/status-run', f'{kind} ({fmt}) not reported', case))
             exp = (3 if lines else 0) if W else (2 if fatal else 0)
-            if W and fatal and not lines:
+            if kind.startswith('superseded:') and not W:
+                exp = 2 if any('bad docstring' in l for l in lines) else 0
+            if W and fatal and not lines and not kind.startswith('superseded:'):
                 exp = 2
             if r.status != exp:
                 res['violations'].append(core.violation(f'status/{"with-W" if W else "without-W"}/{kind}', f'{fmt} {kind}: status {r.status}, expected {exp} ({len(lines)} problem lines, fatal={fatal})', case))
